@@ -57,7 +57,7 @@ def run(tier, seed, replay=None):
         ck.notes.append("harness does not build against the working tree: " + str(e)[-800:])
         ob["ok"] = False
         ob["failures"].append("correspondence harness does not compile against the current source")
-        return ck.finish(ob, rule="-")
+        return ck.finish(ob, rule="legacy class, periodic mode with a fixed range: the bins are judged against the wrap stated without the index arithmetic of the code (value moved by whole range lengths, nearest centre, end bins merged). -")
     if not ob.get("driver_ok", True):
         return ck.finish(ob, rule="-")
     if replay:
